@@ -48,3 +48,12 @@ Theorem C14_source_layout n i k : gen_param_index n i k = param_index n i k /\ g
   gen_labels_ok = true /\ gen_validator_ok = true.
 Proof. exact (tie_layout n i k). Qed.
 Print Assumptions C14_source_layout.
+
+(* ---- tie to the source (gen/Pipeline.v, regenerated on every run by translate/pipeline.py from kernel_model.RefSpaceModel / SrcSpaceModel,
+        fuse._process_block / process, compare.get_block_sums) *)
+From HV Require Import Kernel.Flow Tie.PipelineTie.
+From HVgen Require Import Pipeline.
+(* the parameter block that is written is the very fit that apply() was given *)
+Theorem C14_source_block_flow : Pipeline.translation_failed = false /\ gen_block_flow_ok = true /\ gen_model_choice_ok = true.
+Proof. destruct (pipeline_tied0 true) as (A & _ & _ & (_ & _ & _ & _ & _ & _ & B & C & _)). repeat split; assumption. Qed.
+Print Assumptions C14_source_block_flow.
